@@ -217,6 +217,9 @@ var stdDeps = []*Dep{
 var unsafeDep = &Dep{Path: "unsafe", Name: "unsafe", Std: true, Extra: []string{"Pointer"}}
 
 func stdByPath(p string) *Dep {
+	if p == "unsafe" {
+		return unsafeDep
+	}
 	for _, d := range stdDeps {
 		if d.Path == p {
 			return d
@@ -228,7 +231,7 @@ func stdByPath(p string) *Dep {
 var (
 	depNamePool   = []string{"one", "two", "store", "model", "client", "util", "types", "api", "foo", "bar"}
 	depVarLikePool = []string{"s", "n", "err", "fn", "val", "ctx", "b", "f", "v", "id", "sync", "json", "template", "context", "http"}
-	depParentPool = []string{"a", "b", "c", "x/y", "internal/z", "pkg", "c/b", "third_party/a", "lib.v2", "go-kit", "kit-go"}
+	depParentPool = []string{"a", "b", "c", "x/y", "internal/z", "pkg", "c/b", "third_party/a", "lib.v2", "go-kit", "kit-go", "multivendor", "govendor/x"}
 	structNamePool = []string{"Thing", "Client", "Request", "Config", "Item", "Record", "T", "Time", "Context"}
 	localStructPool = []string{"Person", "Account", "Order", "Entry", "Node"}
 	srcNamePool   = []string{"store", "svc", "domain", "repo", "core", "sync", "http"}
